@@ -159,6 +159,12 @@ K("k_cel_raw_rgba_28", "cel", "raw cel (type 0): Ok iff declared w*h*4 bytes pre
 K("k_cel_raw_gray_24", "cel", "raw grayscale cel: Ok iff declared w*h*2 bytes present", ["cel::parse_chunk", "pixel::RawPixels::from_raw"], label=BS, bound=shape(24), timeout=5400)
 K("k_cel_raw_indexed_23", "cel", "raw indexed cel: Ok iff declared w*h bytes present", ["cel::parse_chunk", "pixel::RawPixels::from_raw"], label=BS, bound=shape(23), timeout=5400)
 K("k_pixel_count", "cel", "ImageSize::pixel_count == w*h, all u16^2", ["cel::ImageSize::pixel_count"])
+K("k_reader_schedule", "reader", "AseReader over a scripted reader: for EVERY split of a 7-byte stream into read() sizes and EVERY placement of transient Interrupted results, dword / word / byte equal the in-memory result and the end is the end-of-input error",
+  ["reader::AseReader::with", "reader::AseReader::dword", "reader::AseReader::word", "reader::AseReader::byte"], label=BS, bound="7-byte stream, 10 scripted read() calls (all sizes, all interrupt placements)", timeout=1800, witness="x_readers")
+K("k_reader_hard_error", "reader", "AseReader over a scripted reader with a hard I/O error anywhere in the schedule: every primitive returns the right value or Err(IoError) carrying that error kind - never a wrong value, never a panic",
+  ["reader::AseReader::dword", "reader::AseReader::word", "error::AsepriteParseError::from"], label=BS, bound="6-byte stream, 8 scripted read() calls", timeout=1800, witness="x_readers")
+K("k_reader_schedule_5", "reader", "as k_reader_schedule on a 5-byte stream (dword, skip_reserved(1), end of input) with 6 scripted read() calls", ["reader::AseReader::with", "reader::AseReader::dword", "reader::AseReader::skip_reserved", "reader::AseReader::byte"], label=BS, bound="5-byte stream, 6 scripted read() calls", timeout=900, witness="x_readers")
+K("k_reader_hard_error_4", "reader", "as k_reader_hard_error on a 4-byte stream (one dword) with 5 scripted read() calls", ["reader::AseReader::dword", "error::AsepriteParseError::from"], label=BS, bound="4-byte stream, 5 scripted read() calls", timeout=900, witness="x_readers")
 K("k_cels_table", "cel", "CelsData: add_cel Ok iff frame exists and slot free; cel() returns what was stored; frame_cels() in increasing layer index for any insertion order", ["cel::CelsData::new", "cel::CelsData::add_cel", "cel::CelsData::cel", "cel::CelsData::frame_cels"], label=BS, bound="2 frames, 2 insertions, layer index <= 3 (frame ids any u16)", timeout=5400)
 K("k_gray_rgba", "pixel", "Grayscale (v,a) -> (v,v,v,a); read_rgba verbatim; short pixels are errors", ["pixel::Grayscale::new", "pixel::Grayscale::into_rgba", "pixel::read_rgba"])
 K("k_indexed_as_rgba", "pixel", "Indexed::as_rgba: None iff absent; palette colour with alpha 0 iff transparent index and not background", ["pixel::Indexed::as_rgba"], bound="one palette entry at a symbolic index (the function reads one entry)")
@@ -327,7 +333,7 @@ UD_DEC = ["k_user_data_4", "k_user_data_8", "k_user_data_12"]
 CP_DEC = ["k_color_profile_15", "k_color_profile_16", "k_color_profile_20"]
 
 # Kani shapes that need 7 - 60+ minutes each (Vec<struct with String> drop glue, hashbrown): thorough tier only
-HEAVY = [h for h in ["k_layer_chunk_21", "k_layer_chunk_24", "k_cel_raw_rgba_28", "k_user_data_12", "k_from_bytes_8", "k_tags_chunk_30", "k_tags_chunk_49", "k_slice_chunk_14", "k_slice_chunk_34", "k_slice_chunk_58", "k_palette_chunk_20", "k_palette_chunk_26", "k_palette_chunk_35",
+HEAVY = [h for h in ["k_reader_schedule", "k_reader_hard_error", "k_layer_chunk_21", "k_layer_chunk_24", "k_cel_raw_rgba_28", "k_user_data_12", "k_from_bytes_8", "k_tags_chunk_30", "k_tags_chunk_49", "k_slice_chunk_14", "k_slice_chunk_34", "k_slice_chunk_58", "k_palette_chunk_20", "k_palette_chunk_26", "k_palette_chunk_35",
          "k_old04_chunk_10", "k_old11_chunk_10", "k_old11_chunk_13", "k_validate_indexed", "k_indexed_as_rgba", "k_ext_files_27", "k_ext_files_41", "k_tileset_head_34", "k_tileset_head_44", "k_cels_table"]]
 from registry import OBL
 for _h in HEAVY:
@@ -378,7 +384,7 @@ prop("C11", "proof", ["v_dec_old04", "v_dec_old11", "v_dec_palette", "v_palette_
      "6-bit scaling proved for all u8; palette chunk decoders against the layout on fixed sizes; pixel-index validation on a bounded shape; precedence between chunks and the load failure for incomplete palettes are bounded-exec.")
 prop("C13", "exploration", READER + ["v_chunk_read", "v_chunk_read_all", "v_read_aseprite", "k_check_chunk_bytes", "v_check_chunk_bytes", "v_dec_layer", "v_dec_tags", "v_dec_cel", "x_truncation"],
      "Reader primitives return an error value whenever fewer bytes remain than the field needs (contract, every position of a fixed-size cursor); that declared counts drive the reads is glue: every cut offset of generated and corpus files is executed.")
-prop("C14", "exploration", ["k_error_mapping", "k_reader_prims_6", "k_reader_sequence", "x_readers"],
+prop("C14", "exploration", ["k_error_mapping", "k_reader_prims_6", "k_reader_sequence", "k_reader_schedule_5", "k_reader_hard_error_4", "k_reader_schedule", "k_reader_hard_error", "x_readers"],
      "Error mapping (io::Error -> IoError, source()) is a Kani contract; independence of reader behaviour is bounded-exec with scripted readers (short reads, Interrupted, BufReader, files) and a hard error of 6 kinds injected at byte offsets.")
 prop("C15", "proof", ["v_parse_chunk_type", "v_tilesets_validate", "v_read_aseprite", "v_parse_pixel_format", "v_dec_colorprofile", "v_dec_cp_type", "v_dec_tilemap", "v_dec_cel_content", "v_dec_layer_type", "v_dec_blend_mode", "v_dec_anim_dir", "v_dec_layer", "v_dec_tags", "k_parse_pixel_format", "k_parse_layer_type", "k_parse_blend_mode", "k_parse_animation_direction", "k_parse_chunk_type", "k_cel_chunk_18", "k_cel_chunk_17", "k_tilemap_bits"] + CP_DEC + ["x_decoder_contracts", "x_refusals"],
      "Every refusal that is a branch of a contracted function is proved over the whole code domain (colour depth, layer type, blend mode, animation direction, cel type, chunk type, colour profile type/flags, bits per tile); the pixel-ratio rule and 'tileset without pixels' sit in glue and are bounded-exec at every position.")
